@@ -506,6 +506,7 @@ package internal
 //@   property C06
 //@   requires entry != nil && entry.Data != nil                                     # name: entry-well-formed
 //@   requires storableStatus(entry.Data.StatusCode)                                 # name: status-storable
+//@   requires entry.Data.Header != nil ==> (forall k string :: hopFixed(k) ==> !has(entry.Data.Header, k))   # name: no-hop-by-hop-field-reaches-the-store   props: C05
 //@   assigns storeWrites, lastSetOK, lastSetKey, entry.Data.Body, bodyReadFailed
 //@   ensures lastSetOK == (result == nil) && lastSetKey == key                      # ghost-update
 //@   ensures bodyReadFailed ==> result != nil && storeWrites == old(storeWrites)    # name: unreadable-body-not-written
@@ -650,18 +651,42 @@ package internal
 //@ func TrimmedCSVCanonicalSeq
 //@   trusted
 //@   pure
-//@   ensures result != nil
+//@   ensures result != nil && seqLen(result) == csvN(s) && (forall k int :: 0 <= k && k < csvN(s) ==> seqAt(result, k) == canon(csvAt(s, k)))
+
+// ---- C05: hop-by-hop fields ---------------------------------------------------------------------
+// hopFixed: the fields RFC 9110 7.6.1 / RFC 9111 3.1 make hop-by-hop by name. connNamed(h, k): k is
+// named (in canonical form) by a member of the comma-join of ALL Connection field lines of h.
+//@ spec func hopFixed(k string) bool = k == "Connection" || k == "Proxy-Connection" || k == "Keep-Alive" || k == "Te" || k == "Transfer-Encoding" || k == "Upgrade" || k == "Proxy-Authenticate" || k == "Proxy-Authentication-Info" || k == "Proxy-Authorization"
+//@ spec func connNamed(h http.Header, k string) bool = exists j int :: 0 <= j && j < csvN(joinAll(h, "Connection")) && k == canon(csvAt(joinAll(h, "Connection"), j))
+//@ spec func isHop(h http.Header, k string) bool = hopFixed(k) || connNamed(h, k)
 //@ func hopByHopHeaders
 //@   property C05
 //@   nosafety
 //@   pure
 //@   fresh
-//@   ensures result != nil                                   # name: non-nil
+//@   let ct = joinAll(respHeader, "Connection")
+//@   rangefunc 0 invariant forall k string :: hopFixed(k) ==> has(m, k)
+//@   rangefunc 0 invariant forall j int :: 0 <= j && j < iter ==> has(m, canon(csvAt(ct, j)))
+//@   rangefunc 0 invariant forall k string :: has(m, k) ==> hopFixed(k) || (exists j int :: 0 <= j && j < iter && k == canon(csvAt(ct, j)))
+//@   ensures result != nil                                                                  # name: non-nil
+//@   ensures forall k string :: hopFixed(k) ==> has(result, k)                              # name: fixed-hop-by-hop-fields-listed
+//@   ensures forall k string :: connNamed(respHeader, k) ==> has(result, k)                 # name: fields-named-by-any-connection-line-listed
+//@   ensures forall k string :: has(result, k) ==> isHop(respHeader, k)                     # name: nothing-else-listed
 
+// A 304 replaces the stored value of every end-to-end field it carries (except Content-Length)
+// and touches nothing else (RFC 9111 3.2).
+//@ spec func omitted304(h http.Header, k string) bool = isHop(h, k) || k == "Content-Length"
 //@ func updateStoredHeaders
-//@   property C08
-//@   requires storedResp != nil && storedResp.Header != nil && resp != nil
+//@   property C08 C05
+//@   nosafety
+//@   requires storedResp != nil && storedResp.Header != nil && resp != nil && resp.Header != nil && resp.Header != storedResp.Header
 //@   assigns map(storedResp.Header)
+//@   loop 0 invariant forall k string :: has(omitted, k) == omitted304(resp.Header, k)
+//@   loop 0 invariant forall k string :: visited(k) ==> has(resp.Header, k)
+//@   loop 0 invariant forall k string :: visited(k) && !omitted304(resp.Header, k) ==> has(storedResp.Header, k) && get(storedResp.Header, k) == get(resp.Header, k)
+//@   loop 0 invariant forall k string :: !visited(k) || omitted304(resp.Header, k) ==> has(storedResp.Header, k) == old(has(storedResp.Header, k)) && get(storedResp.Header, k) == old(get(storedResp.Header, k))
+//@   ensures forall k string :: has(resp.Header, k) && !omitted304(resp.Header, k) ==> has(storedResp.Header, k) && get(storedResp.Header, k) == get(resp.Header, k)     # name: end-to-end-fields-of-the-304-replace-stored-ones
+//@   ensures forall k string :: !has(resp.Header, k) || omitted304(resp.Header, k) ==> has(storedResp.Header, k) == old(has(storedResp.Header, k)) && get(storedResp.Header, k) == old(get(storedResp.Header, k))   # name: everything-else-untouched   props: C05 C08
 
 //@ func (RevalidationContext).ToMisc
 //@   trusted
@@ -748,6 +773,11 @@ package internal
 //@   nosafety
 //@   requires resp != nil && resp.Header != nil
 //@   assigns map(resp.Header)
+//@   loop 0 invariant forall k string :: has(resp.Header, k) == (old(has(resp.Header, k)) && !visited(k))
+//@   loop 0 invariant forall k string :: has(resp.Header, k) ==> get(resp.Header, k) == old(get(resp.Header, k))
+//@   ensures forall k string :: old(isHop(resp.Header, k)) ==> !has(resp.Header, k)                        # name: hop-by-hop-fields-removed   props: C05
+//@   ensures forall k string :: !old(isHop(resp.Header, k)) ==> has(resp.Header, k) == old(has(resp.Header, k))   # name: end-to-end-fields-kept   props: C05
+//@   ensures forall k string :: has(resp.Header, k) ==> get(resp.Header, k) == old(get(resp.Header, k))             # name: end-to-end-values-untouched   props: C05
 
 // two references denote the same stored variant: same response id selected by equal resolved header values
 //@ spec func sameVariantS(a *ResponseRef, id string, vr map[string]string) bool = a.ResponseID == id && hasArr(a.VaryResolved) == hasArr(vr) && (forall k string :: has(vr, k) ==> get(a.VaryResolved, k) == get(vr, k))
@@ -761,7 +791,7 @@ package internal
 //@   ensures result == sameVariantS(a, b.ResponseID, b.VaryResolved)            # name: id-and-values
 //@ func (*responseStorer).StoreResponse
 //@   implements ResponseStorer.StoreResponse
-//@   property C06 C10 C19 C04
+//@   property C06 C10 C19 C04 C05
 //@   requires r != nil && r.cache != nil && r.vhn != nil && r.vk != nil
 //@   loop 0 invariant -1 <= rangeindex && rangeindex < len(refs) && 0 <= len(updated) && len(updated) <= rangeindex + 1
 //@   loop 0 invariant 0 <= refIndex && refIndex <= rangeindex ==> len(updated) <= rangeindex
